@@ -22,6 +22,8 @@ pub broadcast axiom fn axiom_vec_len_bound(v: Vec<u8>)
     ensures #[trigger] v@.len() <= isize::MAX;      // Rust allocation guarantee
 pub broadcast axiom fn axiom_vecvec_len_bound<T>(v: Vec<T>)
     ensures #[trigger] v@.len() <= isize::MAX;      // Rust allocation guarantee (any element type)
+pub broadcast axiom fn axiom_slice_any_len_bound<T>(q: &[T])
+    ensures #[trigger] q@.len() <= isize::MAX;      // Rust allocation guarantee (a slice spans at most isize::MAX bytes)
 pub broadcast axiom fn axiom_vecu8_key_model()
     ensures #[trigger] vstd::std_specs::hash::obeys_key_model::<Vec<u8>>();
 
@@ -62,7 +64,7 @@ pub broadcast axiom fn axiom_sets_differ_slice_key(s1: Set<Vec<u8>>, s2: Set<Vec
 
 pub broadcast group group_byte_keys {
     axiom_set_contains_slice_key, axiom_sets_differ_slice_key,
-    axiom_key_of_view, axiom_view_key_of, axiom_vecu8_ext, axiom_slice_len_bound, axiom_vec_len_bound, axiom_vecvec_len_bound, axiom_vecu8_key_model,
+    axiom_key_of_view, axiom_view_key_of, axiom_vecu8_ext, axiom_slice_len_bound, axiom_vec_len_bound, axiom_vecvec_len_bound, axiom_slice_any_len_bound, axiom_vecu8_key_model,
     axiom_contains_slice_key, axiom_maps_slice_key, axiom_removed_slice_key, axiom_updated_slice_key, axiom_updated_vec_key, axiom_updated_same_key,
 }
 }
